@@ -123,7 +123,9 @@ def revDefault (n : DNode) : Except DiffErr DNode :=
 /-- `lyd_diff_reverse_meta(node, mod, name1, name2)` -/
 def revMeta (n : DNode) (name1 name2 : String) : Except DiffErr DNode :=
   match getMeta n name1, getMeta n name2 with
-  | some v1, some v2 => .ok (n.setMetas (setMetaVal name2 v1 (setMetaVal name1 v2 n.metas)))
+  | some v1, some v2 =>
+    -- `lyd_change_meta` reports "no change" (LY_ENOT) for an equal value, which is an error here
+    if v1 == v2 then .error .enot else .ok (n.setMetas (setMetaVal name2 v1 (setMetaVal name1 v2 n.metas)))
   | _, _ => .error .einval
 
 /-- the node's own part of one `LYD_TREE_DFS` step for operation `replace` -/
